@@ -26,6 +26,12 @@ lazy_static::lazy_static! {
     static ref ICE_COLOR_NAME_REGEX: Regex = Regex::new(r"\s*#Name:\s*(.*)\s*").unwrap();
 }
 
+/// The text palette formats are line based: a line break inside a title, author, description or color name
+/// would start a new line that `load_palette` reads as a line of its own (e.g. as a color).
+fn single_line(text: &str) -> String {
+    text.replace(['\r', '\n'], " ")
+}
+
 #[derive(Debug, Clone, Default, Serialize, Deserialize)]
 pub struct Color {
     #[serde(skip_serializing)]
@@ -471,13 +477,13 @@ impl Palette {
                 let mut res = String::new();
                 res.push_str("GIMP Palette\n");
 
-                res.push_str(format!("#Palette Name: {}\n", self.title).as_str());
-                res.push_str(format!("#Author: {}\n", self.author).as_str());
-                res.push_str(format!("#Description: {}\n", self.description).as_str());
+                res.push_str(format!("#Palette Name: {}\n", single_line(&self.title)).as_str());
+                res.push_str(format!("#Author: {}\n", single_line(&self.author)).as_str());
+                res.push_str(format!("#Description: {}\n", single_line(&self.description)).as_str());
                 res.push_str(format!("#Colors: {}\n", self.colors.len()).as_str());
 
                 for c in &self.colors {
-                    res.push_str(format!("{:3} {:3} {:3} {}\n", c.r, c.g, c.b, self.description).as_str());
+                    res.push_str(format!("{:3} {:3} {:3} {}\n", c.r, c.g, c.b, single_line(&self.description)).as_str());
                 }
 
                 return res.as_bytes().to_vec();
@@ -487,14 +493,14 @@ impl Palette {
                 let mut res = String::new();
                 res.push_str("ICE Palette\n");
 
-                res.push_str(format!("#Palette Name: {}\n", self.title).as_str());
-                res.push_str(format!("#Author: {}\n", self.author).as_str());
-                res.push_str(format!("#Description: {}\n", self.description).as_str());
+                res.push_str(format!("#Palette Name: {}\n", single_line(&self.title)).as_str());
+                res.push_str(format!("#Author: {}\n", single_line(&self.author)).as_str());
+                res.push_str(format!("#Description: {}\n", single_line(&self.description)).as_str());
                 res.push_str(format!("#Colors: {}\n", self.colors.len()).as_str());
 
                 for c in &self.colors {
                     if let Some(name) = c.name.as_ref() {
-                        res.push_str(format!("#Name: {name}\n").as_str());
+                        res.push_str(format!("#Name: {}\n", single_line(name)).as_str());
                     }
                     res.push_str(format!("{:02x}{:02x}{:02x}\n", c.r, c.g, c.b).as_str());
                 }
@@ -504,9 +510,9 @@ impl Palette {
                 let mut res = String::new();
                 res.push_str(";paint.net Palette File\n");
 
-                res.push_str(format!(";Palette Name: {}\n", self.title).as_str());
-                res.push_str(format!(";Author: {}\n", self.author).as_str());
-                res.push_str(format!(";Description: {}\n", self.description).as_str());
+                res.push_str(format!(";Palette Name: {}\n", single_line(&self.title)).as_str());
+                res.push_str(format!(";Author: {}\n", single_line(&self.author)).as_str());
+                res.push_str(format!(";Description: {}\n", single_line(&self.description)).as_str());
                 res.push_str(format!(";Colors: {}\n", self.colors.len()).as_str());
 
                 for c in &self.colors {
